@@ -13,6 +13,8 @@ E1 (bounded exhaustive enumeration).  One *unit* = one mesh pattern; on it, in a
            [table_key]; the table lists exactly what the per-cell tests report   [table_complete]
   addpoint p.add_point(c, d) for every unshaded cell and the five directions: the result is
            contained in sigma <=> sigma has an occurrence of p with an entry in cell c (S<=N)
+           [addpoint_dir: of the four cells around the new point exactly the two on the named
+           side are shaded]
   addpair  add_increase / add_decrease likewise with an increasing / decreasing pair in the cell
   lookups  shade, is_shaded (cells and all rectangles), is_pointfree (all rectangles),
            non_pointless_boxes, has_anchored_point against geometric definitions
@@ -86,6 +88,39 @@ def build_tables(ctx, N, maxk):
 
 def _table_shard(shard):
     return None, X.table_chunk(shard)
+
+
+def selftest_tables():
+    """The grouped tables against the plain definitions (refmodel.mesh_occurrences) for every
+    mesh pattern of length <= 2 on S<=4 (incl. the 'entry / increasing pair / decreasing pair in
+    the cell' sets).  A disagreement is a harness error, never a verdict."""
+    small = [t for t in TEXTS if len(t) <= 4]
+    for k in range(0, 3):
+        for patt in R.perms(k):
+            sem = X.Sem(patt, RICH[patt])
+            for shm in range(1 << ((k + 1) ** 2)):
+                shading = X.cells_of(k, shm)
+                got = sem.contain(shm)
+                wp = sem.with_point(shm)
+                for ti, t in enumerate(small):
+                    occs = R.mesh_occurrences(patt, shading, t)
+                    assert bool(occs) == bool(got >> ti & 1), ("contain", patt, shading, t)
+                    if shm % 7 and k == 2:
+                        continue            # the cell sets: every 7th shading of length 2, all shorter
+                    seen = {}
+                    for idx in occs:
+                        rest = [i for i in range(len(t)) if i not in idx]
+                        for i in rest:
+                            c = R.cell_of(idx, t, i)
+                            e = seen.setdefault(c, [False, False, False])
+                            e[0] = True
+                            for j in rest:
+                                if i < j and R.cell_of(idx, t, j) == c:
+                                    e[1 if t[i] < t[j] else 2] = True
+                    for c in R.all_cells(k):
+                        e = seen.get(c, [False, False, False])
+                        g = [bool(b >> ti & 1) for b in wp[X.cbit(k, c)]]
+                        assert e == g, ("with_point", patt, shading, t, c, e, g)
 
 
 # --------------------------------------------------------------------------------------------
@@ -221,19 +256,24 @@ def eval_unit(part, lib, patt, shm, cfg, warm=None):
                 if key not in X.corner_point_values(patt, boxes):
                     viol("table_key", {"entry": [key, boxes]},
                          {"common corner point values": sorted(X.corner_point_values(patt, boxes))})
-            exp = set()
+            # what the per-cell tests report: exp_min from the argument order the table itself
+            # would naturally use (lower-left cell first), exp_max from both argument orders
+            exp_min, exp_max = set(), set()
             for c, got in single.items():
                 if _is_int_list(got):
-                    exp.update((v, frozenset([c])) for v in got)
+                    exp_min.update((v, frozenset([c])) for v in got)
+            exp_max |= exp_min
             for (a, b), got in pairs.items():
                 if _is_int_list(got) and abs(a[0] - b[0]) + abs(a[1] - b[1]) == 1:
-                    exp.update((v, frozenset([a, b])) for v in got)
+                    exp_max.update((v, frozenset([a, b])) for v in got)
+                    if a < b:
+                        exp_min.update((v, frozenset([a, b])) for v in got)
             have = {(key, frozenset(boxes)) for key, boxes in entries}
-            if have != exp:
+            if not (exp_min <= have <= exp_max):
                 viol("table_complete", {},
-                     {"in table only": sorted((k_, sorted(b)) for k_, b in have - exp),
+                     {"in table only": sorted((k_, sorted(b)) for k_, b in have - exp_max),
                       "reported by can_shade/can_simul_shade only":
-                          sorted((k_, sorted(b)) for k_, b in exp - have)})
+                          sorted((k_, sorted(b)) for k_, b in exp_min - have)})
 
     # ---- addpoint / addpair ---------------------------------------------------------------
     if "addpoint" in subs or "addpair" in subs:
@@ -274,6 +314,15 @@ def eval_unit(part, lib, patt, shm, cfg, warm=None):
                           "text has an occurrence of p with %s in the cell" %
                           ("an entry" if sub == "addpoint" else "such a pair"): bool(lhs >> TEXTS.index(t) & 1),
                           "text contains the result": bool(rhs >> TEXTS.index(t) & 1)})
+                if sub == "addpoint" and qp[c[0]] == c[1]:
+                    # the four cells around the new point (it sits at index x with value y); the
+                    # ones on the side named by the direction must be the shaded ones
+                    around = X.cells_around_point(c[0], c[1])
+                    side = X.cells_on_side(c[0], c[1], name.split("-")[0])
+                    if {a for a in around if a in set(qs)} != side:
+                        viol("addpoint_dir", extra,
+                             {"result": [list(qp), sorted(qs)], "cells around the new point": sorted(around),
+                              "expected shaded among them": sorted(side)})
         if tuple(p.pattern) != tuple(patt) or set(p.shading) != set(shading):
             viol("addpoint", {"how": "receiver"}, {"the pattern was modified": repr(p)})
 
@@ -477,7 +526,9 @@ def run(ctx, only=None):
         "add_point on a shaded cell (documented assert) is outside the property and not called",
     ]
     build_tables(ctx, N, maxk)
-    ctx.section("tables", texts=len(TEXTS), classical_patterns=len(RICH))
+    selftest_tables()
+    ctx.section("tables", texts=len(TEXTS), classical_patterns=len(RICH),
+                selftest="tables == definitions for all of Mesh<=2 on S<=4")
 
     small = {patt: all_masks(len(patt)) for k in range(0, 3) for patt in R.perms(k)}
     CFG["mesh<=2"] = {"subs": subs, "pairs": "all", "cell_sizes": (1, 2, 3), "N": N, "maxk": maxk}
@@ -495,23 +546,22 @@ def run(ctx, only=None):
                    % sum(len(v) for v in fam3.values()),
     }
     if not quick:
-        lem = frozenset(s for s in subs if s in ("lemma1", "simul", "table"))
+        lem = frozenset(s for s in subs if s in ("lemma1", "simul"))
         if lem:
             done = {p_: set(v) for p_, v in fam3.items()}
             rest = {p_: [m for m in all_masks(3) if m not in done[p_]] for p_ in R.perms(3)}
             CFG["all3"] = {"subs": lem, "pairs": "adjacent", "cell_sizes": (), "N": N, "maxk": maxk}
             shards += make_shards(rest, "all3", 512)
             bounds["all3"] = ("the remaining %d mesh patterns of length 3 (so ALL 6*2^16): can_shade on "
-                              "all cells, can_simul_shade on both orders of all adjacent pairs, "
-                              "shadable_boxes" % sum(len(v) for v in rest.values()))
+                              "all cells, can_simul_shade on both orders of all adjacent pairs" % sum(len(v) for v in rest.values()))
         fam3b = {p_: [m for m in by_size(sparse_dense(3, 3, 13)) if m not in set(fam3[p_])]
                  for p_ in R.perms(3)}
-        ins = frozenset(s for s in subs if s in ("addpoint", "addpair", "lookups", "render"))
+        ins = frozenset(s for s in subs if s in ("table", "addpoint", "addpair", "lookups", "render"))
         if ins:
             CFG["family3b"] = {"subs": ins, "pairs": "adjacent", "cell_sizes": (1, 2), "N": N, "maxk": maxk}
             shards += make_shards(fam3b, "family3b", 64)
-            bounds["family3b"] = ("%d more patterns of length 3 (3 or 13 shaded cells): insertions, "
-                                  "lookups, rendering" % sum(len(v) for v in fam3b.values()))
+            bounds["family3b"] = ("%d more patterns of length 3 (3 or 13 shaded cells): shadable_boxes "
+                                  "(checked against the per-cell tests), insertions, lookups, rendering" % sum(len(v) for v in fam3b.values()))
         fam4 = family(4, 1, 24, rowcol=False)
         CFG["family4"] = {"subs": frozenset(s for s in subs if s != "addpair"), "pairs": "adjacent",
                           "cell_sizes": (1,), "N": N, "maxk": maxk}
@@ -545,7 +595,7 @@ def replay(ctx, rec):
     N = int(case.get("N", 6))
     if not TEXTS or len(TEXTS) != len(X.texts_upto(N)):
         build_tables(None, N, min(5, max(k + 2, 3)))
-    family_of = {"lemma1_point": "lemma1", "simul_point": "simul", "table_key": "table",
+    family_of = {"addpoint_dir": "addpoint", "lemma1_point": "lemma1", "simul_point": "simul", "table_key": "table",
                  "table_complete": "table"}
     subs = frozenset([family_of.get(sub, sub)]) if sub != "construct" else frozenset(ALL_SUBS)
     cfg = {"subs": subs, "pairs": "all", "cell_sizes": (1, 2, 3), "N": N, "maxk": 5}
